@@ -19,7 +19,7 @@ from .common import Config, mval, std_assumptions, conj
 from . import resfix, fitfix
 from .resfix import snap, same_snap
 from .c01 import StubExtinction
-from .c09 import setup as c09_setup, PARS
+from .c09 import setup as c09_setup, PARS, parse_numbers, same_tok
 
 ID = 'C10'
 U = su.module
@@ -285,8 +285,17 @@ def h_consumers(function, nm=3):
                 before, after, texts = c.vars
                 cl.claim(c, same_snap(before, after), 'C1 %s leaves the in-memory results it was given unchanged' % function,
                          lambda m: {'form': 'object'}, replay_consumer)
-                same = all(texts['file'][i] == texts['object'][i] == texts['list'][i] for i in range(len(sels)))
-                cl.claim(c, bool(same), 'C2 %s: a sequence of calls with different selectors gives the same outputs for file / object / list' % function,
+                g = []
+                for i in range(len(sels)):
+                    ref = [parse_numbers(c, ln) for ln in texts['file'][i].splitlines()]
+                    for form in ('object', 'list'):
+                        oth = [parse_numbers(c, ln) for ln in texts[form][i].splitlines()]
+                        if len(ref) != len(oth) or any(len(a) != len(b) for a, b in zip(ref, oth)):
+                            g.append(z3.BoolVal(False))
+                            continue
+                        for a, b in zip(ref, oth):
+                            g += [same_tok(x, y) for x, y in zip(a, b)]
+                cl.claim(c, conj(g), 'C2 %s: a sequence of calls with different selectors gives the same outputs for file / object / list' % function,
                          lambda m: {'form': 'object'}, replay_consumer)
                 cl.witness(c)
         R.finish_part(part, ex, cov)
